@@ -5,7 +5,6 @@ package local
 import (
 	vnd "github.com/buildbarn/bb-storage/internal/verifnd"
 	"github.com/buildbarn/bb-storage/pkg/blobstore/buffer"
-	pb "github.com/buildbarn/bb-storage/pkg/proto/blobstore/local"
 )
 
 // Verif_C02_P1_InvariantPerMethod: each method of PersistentBlockList preserves
